@@ -243,3 +243,59 @@ def install(eng):
                "prove": ["cond == InNs(ns, k)", "implies(InNs(ns, k), k[len(ns) + 1:] == NsKey(ns, k))"]}],
         serves=S)
 
+    # ================================================================== create_backend (C20: "reaches the selected backend")
+    # The body of gwf.backends.base.create_backend is verified under its own key: the keyword arguments the selected
+    # backend's factory receives are EXACTLY the backend.<name>.* settings of the configuration (nothing dropped,
+    # nothing added) and the working directory is passed on. Model: discover_backends() is a registry whose entry for a
+    # name is (factory, priority); calling the factory records its arguments in two ghosts.
+    import ast as _ast
+    import gwf.backends.base as GB
+    from pyvc.core import FunV
+    BN = T.Atom("BackendName")
+    eng.ghost("ctor_wd", eng.vc.Path)
+    eng.ghost("ctor_kwargs", UD)
+    eng.ghost("ctor_name", BN)
+    RegT = T.Atom("BackendRegistry")
+    f_factory_of = z3.Function("factory_of", BN.sort(), BN.sort())          # identity tag: which backend a factory belongs to
+    eng.rules[GB.discover_backends] = lambda e, args, kw, st, sink, n: iter([(st, V(RegT, z3.Const("the_registry", RegT.sort())))])
+    eng.contract("ext:backend_factory", params={"working_dir": eng.vc.Path, "kwargs": UD}, returns=eng.vc.Backend,
+                 trusted=True, modifies=["ghost:ctor_wd", "ghost:ctor_kwargs"],
+                 ensures=["ctor_wd == working_dir", "dict_eq(ctor_kwargs, kwargs)"],
+                 raises={"BackendError": {"cond": "True", "modifies": []}},
+                 note="the backend module's create_backend(working_dir, **options): external to this contract")
+
+    def registry_subscript(e, base, idx, st, sink, n):
+        name = e.coerce(idx, BN, n)
+        st = st.set_ghost("ctor_name", name)
+        fac = V(T.FUN, FunV("contract", key="ext:backend_factory", self_v=None, name="backend_cls"))
+        prio, st = e.fresh(T.INT, "priority", st)
+        yield st, e.mk_tuple([fac, prio])
+
+    eng.subscript_hooks[RegT.name] = registry_subscript
+
+    def factory_unpack(e, f, n, st, sink):
+        # backend_cls(working_dir=..., **backend_args)
+        if n.args or len([k for k in n.keywords if k.arg is None]) != 1 or \
+                [k.arg for k in n.keywords if k.arg is not None] != ["working_dir"]:
+            raise Unsupported("backend factory call form", n)
+        wd_node = [k.value for k in n.keywords if k.arg == "working_dir"][0]
+        kw_node = [k.value for k in n.keywords if k.arg is None][0]
+        for st1, wd in e.evx(wd_node, st, sink):
+            for st2, kwv in e.evx(kw_node, st1, sink):
+                yield from e.call_contract(eng.contracts["ext:backend_factory"],
+                                           [e.coerce(wd, eng.vc.Path, n), e.coerce(kwv, UD, n)], {}, st2, sink, n)
+
+    eng.unpack_hooks["ext:backend_factory"] = factory_unpack
+    eng.str_hooks.setdefault("BackendName", lambda e, v: V(T.STR, z3.Function("backend_name_text", BN.sort(), z3.StringSort())(v.z)))
+    eng.contract(
+        "gwf.backends.base:create_backend/body", body_of="gwf.backends.base:create_backend",
+        params={"name": BN, "working_dir": eng.vc.Path, "config": FC}, returns=eng.vc.Backend,
+        modifies=["ghost:ctor_wd", "ghost:ctor_kwargs", "ghost:ctor_name"],
+        ensures=["ctor_name == name", "ctor_wd == working_dir",
+                 # exactly the backend.<name>.* settings, whatever their values (False and 0 included)
+                 "forall(lambda j: (j in ctor_kwargs) == any(InNs('backend.' + str(name), k) and NsKey('backend.' + str(name), k) == j "
+                 "for k in Merged(config.data)), Str)",
+                 "all(any(InNs('backend.' + str(name), k) and NsKey('backend.' + str(name), k) == j and "
+                 "ctor_kwargs[j] == Merged(config.data)[k] for k in Merged(config.data)) for j in ctor_kwargs)"],
+        raises={"BackendError": {"cond": "True", "modifies": ["ghost:ctor_name"]}},
+        serves=["C20"])
